@@ -176,7 +176,7 @@ def is_ast(x):
 # Scenario generation: sources + literal op list
 ###############################################################################
 
-OPS_ANY = ('str', 'repr', 'hash', 'eq', 'iterate', 'children', 'subtree', 'but_same', 'but_child', 'set_metadata', 'scribble_on_results')
+OPS_ANY = ('str', 'repr', 'hash', 'eq', 'iterate', 'children', 'subtree', 'but_same', 'but_child', 'but_scalar', 'set_metadata', 'scribble_on_results')
 OPS_EXPR = ('external_references', 'contains_reference', 'contains_self_reference', 'contains_definition',
             'is_fully_typed', 'cast', 'replace_self_reference', 'replace_var_reference', 'type_check_expr',
             'simplify', 'split_and', 'refactor_reference', 'replace_this_with_var', 'replace_var_with_this',
@@ -205,8 +205,8 @@ def gen_scenario(seed, cfg):
                 t = eg.num(0)
             else:
                 t = eg.boolean(0)
-                if t[0] == 'lit' and k == 'pred':
-                    t = ('bin', 'and', ('field', 'p'), t)
+                if k == 'pred' and sim.coin('vacuous_src', 0.12):
+                    t = ('lit', 'bool', sim.pick('vac', ('True', 'False')))
             t = gen.sanitize_powers(t)
             sources.append({'kind': k, 'text': gen.render(t)})
         elif k == 'prop':
@@ -215,6 +215,10 @@ def gen_scenario(seed, cfg):
         else:
             pg = gen.PropGen(sim, max_depth=1)
             sources.append({'kind': 'spec', 'text': '\n'.join(gen.render_property(pg.prop()) for _ in range(sim.randint('nprops', 1, 3)))})
+    for src in sources:
+        if sim.coin('annotate', 0.5):
+            src['annotate'] = sim.rng.getrandbits(24) & sim.rng.getrandbits(24)  # about a quarter of the nodes
+            sim.note('annbits', src['annotate'])
     nops = sim.randint('nops', *cfg['ops'])
     ops = []
     for _ in range(nops):
@@ -234,6 +238,15 @@ def gen_scenario(seed, cfg):
 ###############################################################################
 # Schema for type checks
 ###############################################################################
+
+
+def make_partial_schema():
+    """A schema that lacks some fields: checks against it fail half-way through a tree."""
+    from hpl import types as T
+    num = T.FLOAT64
+    fields = {'p': T.BOOLEANS, 'ok': T.BOOLEANS, 'x': num, 'txt': T.STRINGS, 'xs': T.ArrayType('float64[2]', subtype=num, length=2),
+              'bs': T.ArrayType('bool[]', subtype=T.BOOLEANS), 'q': num}
+    return T.MessageType('Partial', fields=fields)
 
 
 def make_schema():
@@ -276,7 +289,7 @@ def _quantifiers(obj):
 
 
 def applicable_ops(h):
-    ops = list(OPS_ANY)
+    ops = list(OPS_ANY) + ['set_metadata'] * 2
     if h.kind in ('expression', 'predicate', 'event', 'property') and _quantifiers(h.obj):
         ops += ['quant_redomain', 'quant_recondition'] * 4
     if h.kind == 'expression':
@@ -356,6 +369,12 @@ def do_op(name, h, h2, op, pool, schema, msg_types):
         else:
             val = donor
         return obj.but(**{fname: val}), ('changed', fname, val)
+    if name == 'but_scalar':
+        cands = scalar_candidates(obj)
+        if not cands:
+            return obj.but(), 'same'
+        fname, val = cands[op['sel'] % len(cands)]
+        return obj.but(**{fname: val}), ('changed', fname, val)
     if name == 'quant_redomain':
         qs = _quantifiers(obj)
         q = qs[op['sel'] % len(qs)]
@@ -426,10 +445,9 @@ def do_op(name, h, h2, op, pool, schema, msg_types):
         return obj.replace_self_reference(_an_expr(h2, op)), None
     if name == 'replace_var_reference':
         return obj.replace_var_reference(_an_alias(obj, op), _an_expr(h2, op)), None
-    if name == 'type_check_expr':
-        return obj.type_check_references(schema, {'A': schema}), None
-    if name == 'type_check_pred':
-        return obj.type_check_references(schema, {'A': schema}), None
+    if name in ('type_check_expr', 'type_check_pred'):
+        sch = schema if op['sel'] & 3 else make_partial_schema()
+        return obj.type_check_references(sch, {'A': schema if op['sel'] & 4 else sch}), None
     if name == 'simplify':
         return rw.simplify(obj), None
     if name == 'split_and':
@@ -450,8 +468,18 @@ def do_op(name, h, h2, op, pool, schema, msg_types):
     if name == 'negate':
         return obj.negate(), None
     if name == 'join':
-        other = h2.obj if h2.kind == 'predicate' else obj
-        return obj.join(other), None
+        # the argument is an existing tree whenever the pool has one (vacuous predicates included)
+        others = []
+        for x in pool:
+            if x.kind == 'predicate':
+                others.append(x.obj)
+            elif x.kind in ('event', 'property', 'specification', 'scope', 'pattern'):
+                others.extend(n for n in x.obj.iterate() if getattr(n, 'is_predicate', False))
+        vac = [o for o in others if o.is_vacuous]
+        if vac and (op['sel'] & 3) == 0:
+            others = vac
+        others = others or [obj]
+        return obj.join(others[(op['sel'] >> 2) % len(others)]), None
     if name == 'pred_replace_var':
         return obj.replace_var_reference(_an_alias(obj, op), _an_expr(h2, op)), None
     if name == 'pred_replace_self':
@@ -465,11 +493,11 @@ def do_op(name, h, h2, op, pool, schema, msg_types):
     if name == 'simple_events':
         return list(obj.simple_events()), None
     if name == 'type_check_event':
-        return obj.type_check_references(msg_types), None
+        return obj.type_check_references(_msg_types_variant(msg_types, op)), None
     if name == 'canonical_form':
         return rw.canonical_form(obj), None
     if name == 'type_check_property':
-        return obj.type_check_references(msg_types), None
+        return obj.type_check_references(_msg_types_variant(msg_types, op)), None
     if name == 'events':
         return list(obj.events()), None
     if name == 'sanity_check':
@@ -487,6 +515,51 @@ def synth_donors():
         for t in _SYNTH_TEXTS:
             _synth.append(build.parser('expression').parse(t))
     return list(_synth)
+
+
+def _msg_types_variant(msg_types, op):
+    if op['sel'] & 3:
+        return msg_types
+    part = make_partial_schema()
+    out = dict(msg_types)
+    keys = sorted(out)
+    for i, k in enumerate(keys):
+        if (op['sel'] >> 3) + i & 1:
+            out[k] = part
+    return out
+
+
+SCALAR_VALUES = {
+    str: ('zz', 'a', 'M9', '@B', '"s"', '1'),
+    float: (0.0, 0.5, 2.0, float('inf')),
+    int: (0, 1, 2),
+    bool: (True, False),
+}
+
+
+def scalar_candidates(obj):
+    """(field name, new value) pairs for init fields that do not hold AST nodes."""
+    import enum as _enum
+    out = []
+    for a in attrs.fields(type(obj)):
+        if not a.init or a.name == 'metadata':
+            continue
+        v = getattr(obj, a.name)
+        if is_ast(v) or (isinstance(v, tuple) and v and all(is_ast(e) for e in v)):
+            continue
+        if isinstance(v, _enum.Enum):
+            out += [(a.name, m) for m in type(v) if m is not v]
+        elif isinstance(v, bool):
+            out += [(a.name, not v), (a.name, 1 if v else 0)]
+        elif isinstance(v, (int, float)):
+            out += [(a.name, x) for x in SCALAR_VALUES[float] + SCALAR_VALUES[int] if x != v or type(x) is not type(v)]
+            out += [(a.name, True)]
+        elif isinstance(v, str):
+            out += [(a.name, x) for x in SCALAR_VALUES[str] if x != v]
+            out += [(a.name, str(v))]  # an equal but (for lark tokens) not identical string
+        elif v is None:
+            out += [(a.name, 'N1'), (a.name, None)]
+    return out
 
 
 def _an_alias(obj, op):
@@ -554,9 +627,16 @@ def execute(sc, stats=None, upto=None, trace=None):
     resolved = []
     _RESOLVED[0] = resolved
     try:
-        for src in sc['sources']:
+        for si, src in enumerate(sc['sources']):
             obj = parse_source(src)
             twin = parse_source(src)
+            # user code may annotate nodes (legal); done before the first snapshot so that trees
+            # with non-empty metadata on inner nodes are the norm, not the exception
+            ann = src.get('annotate')
+            if ann:
+                for ni, node in enumerate(obj.iterate()):
+                    if (ann >> (ni % 24)) & 1:
+                        node.metadata['note'] = 'n%d.%d' % (si, ni)
             pool.append(Handle(obj, twin, 'parse:' + src['kind']))
     except Exception as e:
         count('source_rejected')
@@ -643,7 +723,7 @@ def execute(sc, stats=None, upto=None, trace=None):
                 if x.hash is not None and hash(x.twin) != x.hash:
                     return _viol('hash', 'after %s: hash differs from the untouched twin' % name, op_desc, sc, step)
         # --- invariant 3: but()
-        if failed is None and name in ('but_same', 'but_child'):
+        if failed is None and name in ('but_same', 'but_child', 'but_scalar'):
             recv = h.obj
             if note == 'same':
                 if result is not recv:
